@@ -648,6 +648,12 @@ fn write_workload(version: Version, ctl: Arc<Ctl>) -> WriteRun {
         }};
     }
     call!("create_storage /a", comp.create_storage("/a"));
+    // a bystander with known content: overwritten in place after the traced handle's script (see below)
+    let fk = fired(&ctl);
+    let keep_ok = match call!("create_stream /keep", comp.create_stream("/keep")) {
+        Some(mut k) => call!("write+flush /keep", k.write_all(&pattern(2000, 42)).and_then(|_| k.flush())).is_some(),
+        None => false,
+    } && fired(&ctl) == fk; // (a retried write_all has appended twice: the content is only known when nothing failed here)
     // --- the traced handle ---
     if let Some(mut s) = call!("create_stream /a/s1", comp.create_stream("/a/s1")) {
         let only_handle_failures = true; let _ = any_fault_so_far(&ctl);
@@ -772,6 +778,33 @@ fn write_workload(version: Version, ctl: Arc<Ctl>) -> WriteRun {
         let _ = s.flush();
         drop(s);
         run.handle_phase.1 = ctl.calls.load(Ordering::SeqCst);
+    }
+    // --- whatever failed above: a flush on ANOTHER handle that returns Ok is durable too.  An overwrite in place
+    // needs no new sector, so it succeeds even when an earlier failure left the allocator unable to grow the
+    // file; the bytes alone must then reopen and hold it.
+    if keep_ok {
+        let f0 = fired(&ctl);
+        let r = comp.open_stream("/keep").and_then(|mut k| {
+            k.seek(SeekFrom::Start(100))?;
+            k.write_all(&pattern(10, 43))?;
+            k.flush()
+        });
+        if r.is_ok() && fired(&ctl) == f0 {
+            let mut want = pattern(2000, 42);
+            want[100..110].copy_from_slice(&pattern(10, 43));
+            ctl.count_writes.store(false, Ordering::SeqCst);
+            let bytes = _shared.as_ref().unwrap().snapshot();
+            let mut w = Vec::new();
+            let r2 = CompoundFile::open(std::io::Cursor::new(bytes)).and_then(|mut c| c.open_stream("/keep").and_then(|mut f| f.read_to_end(&mut w)));
+            ctl.count_writes.store(true, Ordering::SeqCst);
+            if r2.is_err() || w != want {
+                run.bad.push(format!("an in-place overwrite of another stream and its flush returned Ok, but the file's bytes, reopened, give {} for that stream (expected {} bytes)",
+                    match &r2 { Ok(_) => format!("{} bytes, first difference at {:?}", w.len(), w.iter().zip(want.iter()).position(|(a, b)| a != b)), Err(e) => format!("error {}", err_kind(e)) }, want.len()));
+            }
+            run.transcript.push("overwrite /keep ok".into());
+        } else {
+            run.transcript.push("overwrite /keep err".into());
+        }
     }
     // --- grow the directory, remove, recreate ---
     for i in 0..12 {
